@@ -277,6 +277,57 @@ def run_endian(case):
 
 
 @st.composite
+def record_swap_case(draw, tier):
+    """records laid out with struct in one byte order, behind an optional header; byteswap with the record's format converts them to the other order"""
+    codes = draw(st.lists(st.sampled_from(sorted(CODES)), min_size=1, max_size=4))
+    nrec = draw(st.integers(1, 3))
+    vals = [[draw(values_for(c, 1, allow_nan=False))[0] for c in codes] for _ in range(nrec)]
+    return {'codes': codes, 'vals': vals, 'header': draw(st.integers(0, 3)), 'tail': draw(st.integers(0, 2)), 'order': draw(st.sampled_from('<>')),
+            'fmt_kind': draw(st.sampled_from(['str_plain', 'str_at', 'str_eq', 'str_lt', 'str_gt', 'int_list', 'int_tuple', 'counted'])), 'repeat': draw(st.booleans()),
+            'explicit_end': draw(st.booleans()), 'cls': draw(mcls_st)}
+
+
+def run_record_swap(case):
+    bs = bitstring_module()
+    codes, order = case['codes'], case['order']
+    other = '>' if order == '<' else '<'
+    recs = [[uv(v) for v in rec] for rec in case['vals']]
+    body = b''.join(struct.pack(order + ''.join(codes), *rec) for rec in recs)
+    body_other = b''.join(struct.pack(other + ''.join(codes), *rec) for rec in recs)
+    one = len(body) // len(recs)
+    header, tail = bytes(range(1, case['header'] + 1)), bytes([0xee] * case['tail'])
+    kind = case['fmt_kind']
+    if kind.startswith('str_'):
+        fmt = {'plain': '', 'at': '@', 'eq': '=', 'lt': '<', 'gt': '>'}[kind[4:]] + ''.join(codes)
+    elif kind == 'counted':
+        # equal neighbours written with a count, as struct allows
+        parts = []
+        for c in codes:
+            if parts and parts[-1][0] == c:
+                parts[-1][1] += 1
+            else:
+                parts.append([c, 1])
+        fmt = ''.join((str(k) if k > 1 else '') + c for c, k in parts)
+    else:
+        sizes = [CODES[c][1] // 8 for c in codes]
+        fmt = sizes if kind == 'int_list' else tuple(sizes)
+    x = cls_of(case['cls'])(bytes=header + body + tail)
+    start = 8 * len(header)
+    repeat = case['repeat']
+    end = 8 * (len(header) + len(body)) if (case['explicit_end'] or tail) else None
+    r = attempt(x.byteswap, fmt, start, end, repeat)
+    require(not is_raised(r), 'byteswap with the format of the records raised', got=r, fmt=fmt, start=start, end=end, repeat=repeat)
+    nswapped = len(recs) if repeat else 1
+    want = header + body_other[:one * nswapped] + body[one * nswapped:] + tail
+    require(x.bytes == want, 'byteswap(record format) does not convert the records to the other byte order', fmt=fmt, start=start, end=end, repeat=repeat,
+            got=x.bytes.hex()[:80], expected=want.hex()[:80])
+    require(r == nswapped, 'byteswap does not return the number of repeats it performed', got=r, expected=nswapped)
+    x.byteswap(fmt, start, end, repeat)
+    require(x.bytes == header + body + tail, 'the same byteswap applied twice is not the identity', fmt=fmt)
+    return {'nt': body != body_other, 'labels': [kind, 'repeat' if repeat else 'once', 'header' if header else 'no-header']}
+
+
+@st.composite
 def involution_case(draw, tier):
     nbytes = draw(st.integers(0, 24))
     extra = draw(st.sampled_from([0, 0, 0, 1, 7]))
@@ -307,5 +358,6 @@ SUBCHECKS = [
     Sub('C18.array_vs_struct', run_array, strategy=array_case, examples={'quick': 6000, 'thorough': 80000}),
     Sub('C18.array_from_array', run_from_array, strategy=from_array_case, examples={'quick': 6000, 'thorough': 80000}),
     Sub('C18.endian_relation_byteswap', run_endian, strategy=endian_case, examples={'quick': 5000, 'thorough': 60000}),
+    Sub('C18.record_byteswap', run_record_swap, strategy=record_swap_case, examples={'quick': 5000, 'thorough': 60000}),
     Sub('C18.byteswap_involution', run_involution, strategy=involution_case, examples={'quick': 6000, 'thorough': 80000}),
 ]
